@@ -6,6 +6,7 @@ import NPModel.Refine.Validate
 import NPModel.Refine.Fields
 import NPModel.Refine.Samples
 import NPModel.Refine.SetItemRect
+import NPModel.Refine.DropNa
 namespace NP.C01
 open NP
 variable {α : Type}
@@ -100,5 +101,64 @@ example : (NArr.setItem Samples.c1 (.mask [true, false, false, false])
     complete as well as sound there. -/
 theorem validator_exact_on_fresh_storage (s : PStruct α) (hc : s.canonical) : s.validate = .ok () ↔ s.aligned :=
   PStruct.canonical_validate_iff s hc
+
+/-- **The constructor never returns unvalidated storage**: whatever `__init__` (with validation, the
+    default) returns has passed the equal-lengths validator, chunk by chunk — also when it had to
+    supply the one empty chunk of a zero-chunk input. -/
+theorem constructor_validates (c c' : PCol α) (h : NArr.init c true = .ok c') : c'.validate = .ok () := by
+  unfold NArr.init at h
+  simp only [if_true, bind, Except.bind, pure, Except.pure] at h
+  split at h
+  · cases h
+  · rename_i hv
+    have := (Except.ok.inj h).symm
+    subst this
+    exact hv
+
+/-- **Every validating entry point of the model returns validated storage**: `pack_lists`
+    (`validate=True`, behind `from_lists` / `nest_lists`), `pack_seq` / `from_sequence`, `take` in
+    both modes, `_concat_same_type`, `dropna` — each ends in the constructor. -/
+theorem entry_points_validate :
+    (∀ (index : List Label) (cols : List (String × String × List (PList α))) (s : NSeries α),
+      packLists index cols true = .ok s → s.col.validate = .ok ()) ∧
+    (∀ (index : List Label) (ty : List (String × String)) (rows : List (Row α)) (s : NSeries α),
+      packSeq index ty rows = .ok s → s.col.validate = .ok ()) ∧
+    (∀ (ty : List (String × String)) (cs : List (PCol α)) (c' : PCol α), NArr.concat ty cs = .ok c' → c'.validate = .ok ()) ∧
+    (∀ (c c' : PCol α), NArr.dropna c = .ok c' → c'.validate = .ok ()) := by
+  refine ⟨?_, ?_, ?_, ?_⟩
+  · intro index cols s h
+    unfold packLists at h
+    simp only [bind, Except.bind, pure, Except.pure] at h
+    split at h
+    · cases h
+    · split at h
+      · cases h
+      · rename_i c hc
+        have := (Except.ok.inj h).symm
+        subst this
+        exact constructor_validates _ c hc
+  · intro index ty rows s h
+    unfold packSeq at h
+    simp only [bind, Except.bind, pure, Except.pure] at h
+    split at h
+    · cases h
+    · rename_i c hc
+      have := (Except.ok.inj h).symm
+      subst this
+      exact constructor_validates _ c hc
+  · intro ty cs c' h
+    exact constructor_validates _ c' h
+  · intro c c' h
+    exact constructor_validates _ c' h
+
+/-- `take` in both modes (with or without a fill value, any fill value) returns validated storage -/
+theorem take_validates (c c' : PCol α) (indices : List Int) (allowFill : Bool) (fill : Row α)
+    (h : NArr.take c indices allowFill fill = .ok c') : c'.validate = .ok () := by
+  unfold NArr.take at h
+  simp only [bind, Except.bind, pure, Except.pure, throw, throwThe, MonadExceptOf.throw] at h
+  repeat' split at h
+  all_goals first
+    | (cases h; done)
+    | exact constructor_validates _ c' h
 
 end NP.C01
